@@ -46,6 +46,7 @@ class Sched:
         self.manual = False
         self.trace = []
         self.queues = []
+        self.put_hook = None
         self.requested_maxsize = []      # the capacity the library itself asked for at each Queue(...)
         self.created = []
         self.fhash = '0'
@@ -303,6 +304,8 @@ def instrument(S):
         def put(self, item, *a, **k):
             timed = _timed(a, k)
             S.yield_(lambda: timed or self.maxsize <= 0 or self._n() < self.maxsize, 'put')
+            if S.put_hook is not None:
+                S.put_hook(self._vz_idx)          # (fault injection: the producer's source fails while it is about to hand over a plane set)
             if timed and 0 < self.maxsize <= self._n():
                 S.timeouts_fired += 1
                 raise _queue.Full
